@@ -547,6 +547,18 @@ class CallsDriver:
         valid domain: the call may well raise OverflowError or ZeroDivisionError - that is not
         judged).  Whatever happens, the model must be unchanged and later calls unaffected."""
         b = self.league.dom.beta
+        if rng.random() < 0.35:
+            # not absurd values but an unusually BIG game: raid-sized rosters of ordinary players
+            sizes = rng.choice([[17, 17], [24, 3], [2, 40, 1], [33]])
+            if len(sizes) == 1:
+                sizes = sizes + [1]
+            mu0, sg0 = dec(self.ctx.cfg["kwargs"]["mu"]), dec(self.ctx.cfg["kwargs"]["sigma"])
+            vals = [[enc(float(mu0 + 0.01 * b * i)), enc(float(sg0))] for i in range(sum(sizes))]
+            teams, k = [], 0
+            for sz in sizes:
+                teams.append(["x%d" % (k + j) for j in range(sz)])
+                k += sz
+            return {"op": "EXTREME", "values": vals, "call": {"op": "RATE", "teams": teams}, "predict": rng.choice(["win", "draw", None]), "big_roster": True}
         n = rng.choice([2, 3, 3, 9])
         vals = []
         for i in range(n):
@@ -688,7 +700,8 @@ class CallsDriver:
         ctx = self.ctx
         m = self.league.model
         fac = self.league.factory
-        teams = [[fac.rating(mu=dec(mu), sigma=dec(sg), name="x%d" % i)] for i, (mu, sg) in enumerate(op["values"])]
+        objs = {"x%d" % i: fac.rating(mu=dec(mu), sigma=dec(sg), name="x%d" % i) for i, (mu, sg) in enumerate(op["values"])}
+        teams = [[objs[n] for n in t] for t in op["call"]["teams"]]
         kw = rate_kwargs(op["call"])
         pre = model_state(m)
         outs = []
@@ -697,7 +710,7 @@ class CallsDriver:
             outs.append(st if st == "ok" else type(val).__name__)
         st, val = call_outcome(lambda: m.rate(teams, **kw))
         outs.append(st if st == "ok" else type(val).__name__)
-        ctx.fault("extreme_values_call")
+        ctx.fault("big_roster_call" if op.get("big_roster") else "extreme_values_call")
         self.check_model(pre, "EXTREME")
         ctx.log("EXTREME", outs)
         self.prev = "reject"
